@@ -66,6 +66,7 @@ def explore(ck):
             with ThreadPoolExecutor(12) as ex: res = list(ex.map(one, lims))
             for L, rr in res:
                 ck.evaluated(); ck.count('write-limit runs:' + cb)
+                if rr.wall > 8: ck.extra.setdefault('slow_runs', []).append((c.id, cb, L, round(rr.wall, 1), rr.rc))
                 exp = expected_state(cb, m, L); got = folder_state(rr)
                 if 0 < L < tot: ck.nontrivial((c.id, cb, 'limit', L))
                 diffs = []
